@@ -101,7 +101,12 @@ def decodeOp (p : Pfx) (n0 : Nat) (bs : List Nat) : Option (Instr × Nat) :=
   match bs with
   | [] => none
   | op :: rest =>
-    if 0x50 ≤ op ∧ op ≤ 0x57 then (if plain then some (.push (p.b + (op &&& 7)), n0 + 1) else none)
+    -- canonical prefixes only: REX.X is never meaningful here (no SIB), and a REX prefix with no bit set is accepted only
+    -- where it changes the meaning (byte stores: `88 /r` on sil/dil/bpl/spl).  This makes the length of a decoded
+    -- register-form instruction a function of the instruction.
+    if p.x then none
+    else if p.rex = some 0 ∧ op ≠ 0x88 then none
+    else if 0x50 ≤ op ∧ op ≤ 0x57 then (if plain then some (.push (p.b + (op &&& 7)), n0 + 1) else none)
     else if 0x58 ≤ op ∧ op ≤ 0x5f then (if plain then some (.pop (p.b + (op &&& 7)), n0 + 1) else none)
     else if 0xb8 ≤ op ∧ op ≤ 0xbf then
       match rest with
